@@ -12,16 +12,22 @@ between a real and a complex space).
 -/
 import OdlModel.Model.Adjoint
 import OdlModel.Lemmas.Adjoint
+import Mathlib.Algebra.Field.Rat
+import Mathlib.Tactic.NormNum.Basic
 
 open OdlModel.Adjoint Finset
 
 section
 variable {K : Type} [Field K] [DecidableEq K]
 
-/-- Leaf soundness as a hypothesis of the tree theorem (discharged by `C05.leaf_sound`). -/
-def OdlModel.Adjoint.LeafSound (cj : K →+* K) (I : K) : Prop :=
-  ∀ (l : Leaf K) (t' : Impl K), l.WT cj I → l.adj cj I = some t' →
+/-- The adjoint contract of one leaf: under the leaf's conditions `WT`, whatever the coded
+`.adjoint` returns satisfies `Pair` with the leaf. -/
+def OdlModel.Adjoint.LeafOK (cj : K →+* K) (I : K) (l : Leaf K) : Prop :=
+  ∀ t' : Impl K, l.WT cj I → l.adj cj I = some t' →
     Pair cj l.needRe l.dom l.ran (l.run cj I) (t'.run cj I)
+
+/-- Leaf soundness as a hypothesis of the tree theorem (discharged by `C05.leaf_sound`). -/
+def OdlModel.Adjoint.LeafSound (cj : K →+* K) (I : K) : Prop := ∀ l : Leaf K, LeafOK cj I l
 
 /-- `adj_sound`, tree part: if every leaf satisfies its adjoint contract then so does every
 expression tree built from OperatorSum, OperatorComp (order reversal), Left/RightScalarMult
@@ -212,5 +218,533 @@ theorem C05.adj_sound_tree (cj : K →+* K) (hcj : ∀ a, cj (cj a) = a) (I : K)
           have := pa.adj φ (fun h => hφ (Or.inl h)) _ _ (hxc x hx) (hyr y hy)
           simp only [dot_comp_eq] at this ⊢
           exact this
+
+
+/-! ### leaf lemmas: all sizes, all weights allowed by `Leaf.WT` -/
+
+/-- ScalingOperator / IdentityOperator: the adjoint scales by the conjugate (or returns
+`self` when the imaginary part of the scalar is zero). -/
+theorem C05.scaling_adj (cj : K →+* K) (hcj : ∀ a, cj (cj a) = a) (I : K) (S : Space K) (s : K) :
+    LeafOK cj I (.scaling S s) := by
+  intro t' hw ha
+  obtain ⟨h1, h2⟩ := hw
+  by_cases h : imK cj I s = 0
+  · simp [Leaf.adj, h] at ha; subst ha
+    have hs := h2 h
+    simp only [Leaf.dom, Leaf.ran, Impl.run, Leaf.run, Leaf.needRe]
+    refine ⟨fun x hx => mem_smul cj hx h1, fun y hy => mem_smul cj hy h1, ?_⟩
+    intro φ _ x y _ _
+    have := dot_smul_right cj hcj S s x y
+    rw [hs] at this
+    rw [dot_smul_left, this]
+  · simp [Leaf.adj, h] at ha; subst ha
+    simp only [Leaf.dom, Leaf.ran, Impl.run, Leaf.run, Leaf.needRe]
+    refine ⟨fun x hx => mem_smul cj hx h1,
+      fun y hy => mem_smul cj hy (fun hr => by rw [h1 hr]; exact h1 hr), ?_⟩
+    intro φ _ x y _ _
+    rw [dot_smul_left, dot_smul_right cj hcj]
+
+/-- ZeroOperator(domain, range) ↦ ZeroOperator(range, domain). -/
+theorem C05.zero_adj (cj : K →+* K) (I : K) (d r : Space K) : LeafOK cj I (.zero d r) := by
+  intro t' _ ha
+  simp [Leaf.adj] at ha; subst ha
+  simp only [Leaf.dom, Leaf.ran, Impl.run, Leaf.run]
+  exact ⟨fun _ _ => mem_zero cj, fun _ _ => mem_zero cj,
+    fun φ _ x y _ _ => by rw [dot_zero_left, dot_zero_right]⟩
+
+/-- MultiplyOperator(v) on a space: adjoint multiplies by `conj v` on complex spaces and by
+`v` itself on real spaces. -/
+theorem C05.multiply_adj (cj : K →+* K) (hcj : ∀ a, cj (cj a) = a) (I : K) (d r : Space K)
+    (v : El K) : LeafOK cj I (.multiply d r v) := by
+  intro t' hw ha
+  obtain ⟨rfl, hv⟩ := hw
+  by_cases h : r.real = true
+  · simp [Leaf.adj, h] at ha; subst ha
+    simp only [Leaf.dom, Leaf.ran, Impl.run, Leaf.run, Leaf.needRe]
+    refine ⟨fun x hx => mem_mul cj hx hv, fun y hy => mem_mul cj hy hv, ?_⟩
+    intro φ _ x y _ _
+    rw [dot_mul_left cj hcj]
+    simp only [hv h _ _]
+  · simp [Leaf.adj, h] at ha; subst ha
+    simp only [Leaf.dom, Leaf.ran, Impl.run, Leaf.run, Leaf.needRe]
+    refine ⟨fun x hx => mem_mul cj hx hv, fun y hy => mem_mul cj hy (mem_conj cj hv), ?_⟩
+    intro φ _ x y _ _
+    rw [dot_mul_left cj hcj]
+
+/-- InnerProductOperator(v): x ↦ ⟨x, v⟩ has adjoint c ↦ c·v (MultiplyOperator(v, field)),
+for every positive (real) weighting. -/
+theorem C05.innerprod_adj (cj : K →+* K) (hcj : ∀ a, cj (cj a) = a) (I : K) (S F : Space K)
+    (v : El K) : LeafOK cj I (.inner S F v) := by
+  intro t' hw ha
+  obtain ⟨rfl, hv, hW⟩ := hw
+  simp [Leaf.adj] at ha; subst ha
+  simp only [Leaf.dom, Leaf.ran, Impl.run, Leaf.run, Leaf.needRe]
+  refine ⟨?_, ?_, ?_⟩
+  · intro x hx h j i
+    simp only [fieldSpace] at h
+    simp only [dot_eq, map_sum, map_mul, hcj, hW _ _, hx h _ _, hv h _ _]
+  · intro y hy h j i
+    have := hy (by simpa [fieldSpace] using h) 0 0
+    simp [this, hv h j i]
+  · intro φ _ x y _ _
+    congr 1
+    simp only [dot_eq, fieldSpace, sum_range_one, map_mul, one_mul, sum_mul, mul_sum]
+    exact sum_congr rfl fun j _ => sum_congr rfl fun i _ => by ring
+
+/-- MultiplyOperator(v, domain=RealNumbers()): c ↦ c·v has adjoint y ↦ ⟨y, v⟩
+(InnerProductOperator(v)); the ComplexNumbers branch raises (`adj = none`). -/
+theorem C05.multfield_adj (cj : K →+* K) (hcj : ∀ a, cj (cj a) = a) (I : K) (S F : Space K)
+    (v : El K) : LeafOK cj I (.multField S F v) := by
+  intro t' hw ha
+  obtain ⟨rfl, hv, hW⟩ := hw
+  by_cases h : S.real = true
+  · simp [Leaf.adj, fieldSpace, h] at ha; subst ha
+    simp only [Leaf.dom, Leaf.ran, Impl.run, Leaf.run, Leaf.needRe]
+    refine ⟨?_, ?_, ?_⟩
+    · intro x hx h' j i
+      have := hx (by simpa [fieldSpace] using h') 0 0
+      simp [this, hv h' j i]
+    · intro y hy h' j i
+      simp only [dot_eq, map_sum, map_mul, hcj, hW _ _, hy h _ _, hv h _ _]
+    · intro φ _ x y _ _
+      congr 1
+      simp only [dot_eq, fieldSpace, sum_range_one, map_mul, map_sum, hcj, hW _ _, one_mul,
+        sum_mul, mul_sum]
+      exact sum_congr rfl fun j _ => sum_congr rfl fun i _ => by ring
+  · simp [Leaf.adj, fieldSpace, h] at ha
+
+/-- MatrixOperator (1-d): the conjugate transpose IS the adjoint when domain and range carry
+the same constant weight (any sizes, any matrix). -/
+theorem C05.matrix_adj_of_equal_const_weights (cj : K →+* K) (hcj : ∀ a, cj (cj a) = a) (I : K)
+    (d r : Space K) (M : Nat → Nat → K) : LeafOK cj I (.matrix d r M) := by
+  intro t' hw ha
+  obtain ⟨hd, hr, ⟨c, hdc, hrc⟩, hdr, hM⟩ := hw
+  simp [Leaf.adj] at ha; subst ha
+  simp only [Leaf.dom, Leaf.ran, Impl.run, Leaf.run, Leaf.needRe]
+  refine ⟨?_, ?_, ?_⟩
+  · intro x hx h j i
+    have hxr : d.real = true → ∀ j i, cj (x j i) = x j i := hx
+    simp only [sumTo_eq, map_sum, map_mul, hM (hdr ▸ h), hxr (hdr ▸ h)]
+  · intro y hy h j i
+    have hyr : r.real = true → ∀ j i, cj (y j i) = y j i := hy
+    simp only [sumTo_eq, map_sum, map_mul, hcj, hM h, hyr (hdr ▸ h)]
+  · intro φ _ x y _ _
+    congr 1
+    simp only [dot_eq, hd, hr, sum_range_one, sumTo_eq, hdc, hrc, map_sum, map_mul, hcj,
+      mul_sum, sum_mul]
+    rw [sum_comm]
+    exact sum_congr rfl fun j _ => sum_congr rfl fun i _ => by ring
+
+
+/-- PointwiseInner / PointwiseSum on a power space `V = X^d` with ARBITRARY non-zero real
+product weights `v` and ARBITRARY operator weights `w`: the adjoint is
+`h ↦ (w_j / v_j) · G_j · h` (PointwiseInnerAdjoint), for all sizes and all `d`. -/
+theorem C05.pointwise_inner_adj (cj : K →+* K) (hcj : ∀ a, cj (cj a) = a) (I : K)
+    (V X : Space K) (G : El K) (w v : Nat → K) : LeafOK cj I (.pwInner V X G w v) := by
+  intro t' hw ha
+  obtain ⟨hX, hVW, hVn, hv0, hreal, hG, hwv⟩ := hw
+  simp [Leaf.adj] at ha; subst ha
+  simp only [Leaf.dom, Leaf.ran, Impl.run, Leaf.run, Leaf.needRe]
+  have hGc : ∀ j i, (if V.real = true then G j i else cj (G j i)) = cj (G j i) := by
+    intro j i; by_cases h : V.real = true
+    · simp [h, hG h j i]
+    · simp [h]
+  refine ⟨?_, ?_, ?_⟩
+  · intro x hx h j i
+    have hV : V.real = true := by rw [hreal]; exact h
+    simp only [sumTo_eq, map_sum, map_mul, (hwv _).1, hx hV _ _, hG hV _ _, hV, if_true]
+  · intro y hy h j i
+    have hXr : X.real = true := by rw [← hreal]; exact h
+    by_cases e : v j = w j
+    · simp [e, hG h j i, hy hXr 0 i]
+    · simp [e, hG h j i, hy hXr 0 i, (hwv j).1, (hwv j).2]
+  · intro φ _ x y _ _
+    congr 1
+    simp only [dot_eq, hX, sum_range_one, sumTo_eq, hGc, sum_mul, mul_sum, hVW]
+    rw [sum_comm]
+    refine sum_congr rfl fun j hj => ?_
+    rw [hVn j (mem_range.mp hj)]
+    refine sum_congr rfl fun i _ => ?_
+    have hv := hv0 j (mem_range.mp hj)
+    by_cases e : v j = w j
+    · simp only [e, if_true, map_mul]; ring
+    · simp only [e, if_false, map_mul, map_div₀, (hwv j).1, (hwv j).2]
+      field_simp
+
+/-- PointwiseInnerAdjoint ↦ PointwiseInner (same weights): the reverse direction. -/
+theorem C05.pointwise_inner_adjoint_adj (cj : K →+* K) (hcj : ∀ a, cj (cj a) = a) (I : K)
+    (X V : Space K) (G : El K) (w v : Nat → K) : LeafOK cj I (.pwInnerAdj X V G w v) := by
+  intro t' hw ha
+  obtain ⟨hX, hVW, hVn, hv0, hreal, hG, hwv⟩ := hw
+  simp [Leaf.adj] at ha; subst ha
+  simp only [Leaf.dom, Leaf.ran, Impl.run, Leaf.run, Leaf.needRe]
+  have hGc : ∀ j i, (if V.real = true then G j i else cj (G j i)) = cj (G j i) := by
+    intro j i; by_cases h : V.real = true
+    · simp [h, hG h j i]
+    · simp [h]
+  refine ⟨?_, ?_, ?_⟩
+  · intro y hy h j i
+    have hXr : X.real = true := by rw [← hreal]; exact h
+    by_cases e : v j = w j
+    · simp [e, hG h j i, hy hXr 0 i]
+    · simp [e, hG h j i, hy hXr 0 i, (hwv j).1, (hwv j).2]
+  · intro x hx h j i
+    have hV : V.real = true := by rw [hreal]; exact h
+    simp only [sumTo_eq, map_sum, map_mul, (hwv _).1, hx hV _ _, hG hV _ _, hV, if_true]
+  · intro φ _ y x _ _
+    congr 1
+    simp only [dot_eq, hX, sum_range_one, sumTo_eq, hGc, sum_mul, mul_sum, hVW, map_sum, map_mul,
+      hcj]
+    rw [sum_comm]
+    refine sum_congr rfl fun i hi => ?_
+    rw [hVn i (mem_range.mp hi)]
+    refine sum_congr rfl fun k _ => ?_
+    have hv := hv0 i (mem_range.mp hi)
+    by_cases e : v i = w i
+    · simp only [e, if_true, (hwv i).1]; ring
+    · simp only [e, if_false, (hwv i).1]
+      field_simp
+
+/-- SamplingOperator ↦ WeightedSumSamplingOperator (`point_eval ↦ dirac`,
+`integrate ↦ char_fun`) on a space whose weighting is the cell volume `cv`; duplicate
+sampling indices allowed (`np.bincount` sums). All sizes, any number of points. -/
+theorem C05.sampling_adj (cj : K →+* K) (I : K) (S R : Space K) (idx : Nat → Nat)
+    (integrate : Bool) (cv : K) : LeafOK cj I (.sampling S R idx integrate cv) := by
+  intro t' hw ha
+  obtain ⟨hS, hR, hSW, hRW, hcv, hcvr, hidx, hreal⟩ := hw
+  simp [Leaf.adj] at ha; subst ha
+  simp only [Leaf.dom, Leaf.ran, Impl.run, Leaf.run, Leaf.needRe]
+  refine ⟨?_, ?_, ?_⟩
+  · intro x hx h j i
+    have := hx (by rw [← hreal]; exact h) 0 (idx i)
+    cases integrate <;> simp [this, hcvr]
+  · intro y hy h j i
+    have hyr := hy (by rw [hreal]; exact h)
+    cases integrate <;> simp [sumTo_eq, map_sum, apply_ite cj, hyr, hcvr]
+  · intro φ _ x y _ _
+    congr 1
+    simp only [dot_eq, hS, hR, sum_range_one, sumTo_eq, hSW, hRW, one_mul]
+    have hc : cv / cj (if (!integrate) = true then cv else 1) =
+        (if integrate = true then cv else 1) := by
+      cases integrate <;> simp [hcvr, hcv]
+    calc ∑ k ∈ range (R.n 0), x 0 (idx k) * (if integrate = true then cv else 1) * cj (y 0 k)
+        = ∑ k ∈ range (R.n 0), ∑ i ∈ range (S.n 0), (if idx k = i then
+            x 0 i * (if integrate = true then cv else 1) * cj (y 0 k) else 0) := by
+          refine sum_congr rfl fun k hk => ?_
+          rw [sum_ite_eq (range (S.n 0)) (idx k)]
+          simp [hidx k (mem_range.mp hk)]
+      _ = ∑ i ∈ range (S.n 0), ∑ k ∈ range (R.n 0), (if idx k = i then
+            x 0 i * (if integrate = true then cv else 1) * cj (y 0 k) else 0) := sum_comm
+      _ = _ := by
+          refine sum_congr rfl fun i _ => ?_
+          rw [map_div₀, map_sum, div_eq_mul_inv, sum_mul, mul_sum]
+          refine sum_congr rfl fun k _ => ?_
+          rw [← hc]
+          by_cases e : idx k = i
+          · simp only [e, if_true, div_eq_mul_inv]; ring
+          · simp [e]
+
+
+/-- WeightedSumSamplingOperator ↦ SamplingOperator (`dirac ↦ point_eval`,
+`char_fun ↦ integrate`): the reverse direction, duplicates allowed. -/
+theorem C05.wsum_sampling_adj (cj : K →+* K) (I : K) (R S : Space K) (idx : Nat → Nat)
+    (dirac : Bool) (cv : K) : LeafOK cj I (.wsum R S idx dirac cv) := by
+  intro t' hw ha
+  obtain ⟨hS, hR, hSW, hRW, hcv, hcvr, hidx, hreal⟩ := hw
+  simp [Leaf.adj] at ha; subst ha
+  simp only [Leaf.dom, Leaf.ran, Impl.run, Leaf.run, Leaf.needRe]
+  refine ⟨?_, ?_, ?_⟩
+  · intro y hy h j i
+    have hyr := hy (by rw [hreal]; exact h)
+    cases dirac <;> simp [sumTo_eq, map_sum, apply_ite cj, hyr, hcvr]
+  · intro x hx h j i
+    have := hx (by rw [← hreal]; exact h) 0 (idx i)
+    cases dirac <;> simp [this, hcvr]
+  · intro φ _ y x _ _
+    congr 1
+    simp only [dot_eq, hS, hR, sum_range_one, sumTo_eq, hSW, hRW, one_mul]
+    have hc : cv / (if dirac = true then cv else 1) =
+        cj (if (!dirac) = true then cv else 1) := by
+      cases dirac <;> simp [hcvr, hcv]
+    symm
+    calc ∑ k ∈ range (R.n 0), y 0 k * cj (x 0 (idx k) * (if (!dirac) = true then cv else 1))
+        = ∑ k ∈ range (R.n 0), ∑ i ∈ range (S.n 0), (if idx k = i then
+            y 0 k * cj (x 0 i * (if (!dirac) = true then cv else 1)) else 0) := by
+          refine sum_congr rfl fun k hk => ?_
+          rw [sum_ite_eq (range (S.n 0)) (idx k)]
+          simp [hidx k (mem_range.mp hk)]
+      _ = ∑ i ∈ range (S.n 0), ∑ k ∈ range (R.n 0), (if idx k = i then
+            y 0 k * cj (x 0 i * (if (!dirac) = true then cv else 1)) else 0) := sum_comm
+      _ = _ := by
+          refine sum_congr rfl fun i _ => ?_
+          rw [div_eq_mul_inv, sum_mul, mul_sum, sum_mul]
+          refine sum_congr rfl fun k _ => ?_
+          rw [map_mul, ← hc]
+          by_cases e : idx k = i
+          · simp only [e, if_true, div_eq_mul_inv]; ring
+          · simp [e]
+
+/-- FlatteningOperator (C order) on a space weighted by its cell volume `cv`:
+adjoint = `(1/cv) · inverse`. -/
+theorem C05.flatten_adj (cj : K →+* K) (I : K) (S R : Space K) (cv : K) :
+    LeafOK cj I (.flatten S R cv) := by
+  intro t' hw ha
+  obtain ⟨hS, hR, hn, hSW, hRW, hcv, hcvr, hreal⟩ := hw
+  simp [Leaf.adj] at ha; subst ha
+  simp only [Leaf.dom, Leaf.ran, Impl.run, Leaf.run, Leaf.needRe]
+  refine ⟨?_, ?_, ?_⟩
+  · intro x hx h j i
+    exact hx (by rw [← hreal]; exact h) 0 i
+  · intro y hy h j i
+    have := hy (by rw [hreal]; exact h) 0 i
+    simp [this, hcvr]
+  · intro φ _ x y _ _
+    congr 1
+    simp only [dot_eq, hS, hR, sum_range_one, hSW, hRW, hn, map_mul]
+    refine sum_congr rfl fun i _ => ?_
+    rw [map_inv₀, hcvr]
+    field_simp
+
+/-- The inverse of the flattening: adjoint = `cv · FlatteningOperator`. -/
+theorem C05.flatten_inverse_adj (cj : K →+* K) (I : K) (R S : Space K) (cv : K) :
+    LeafOK cj I (.flattenInv R S cv) := by
+  intro t' hw ha
+  obtain ⟨hS, hR, hn, hSW, hRW, hcv, hcvr, hreal⟩ := hw
+  simp [Leaf.adj] at ha; subst ha
+  simp only [Leaf.dom, Leaf.ran, Impl.run, Leaf.run, Leaf.needRe]
+  refine ⟨?_, ?_, ?_⟩
+  · intro y hy h j i
+    exact hy (by rw [hreal]; exact h) 0 i
+  · intro x hx h j i
+    have := hx (by rw [← hreal]; exact h) 0 i
+    simp [this, hcvr]
+  · intro φ _ y x _ _
+    congr 1
+    simp only [dot_eq, hS, hR, sum_range_one, hSW, hRW, hn, map_mul, hcvr]
+    refine sum_congr rfl fun i _ => ?_
+    ring
+
+/-- Every modelled leaf satisfies its adjoint contract under its conditions `Leaf.WT`
+(for `opaque`, RealPart/ImagPart/ComplexEmbedding and ComponentProjection(Adjoint) the
+contract itself is the condition: these are established by the matrix oracle only). -/
+theorem C05.leaf_sound (cj : K →+* K) (hcj : ∀ a, cj (cj a) = a) (I : K) : LeafSound cj I := by
+  intro l
+  cases l with
+  | «opaque» re d r f g =>
+    intro t' hw ha
+    simp [Leaf.adj] at ha; subst ha
+    simp only [Leaf.dom, Leaf.ran, Impl.run, Leaf.run, Leaf.needRe]
+    exact hw
+  | nonlin d r f => intro t' _ ha; simp [Leaf.adj] at ha
+  | scaling S s => exact C05.scaling_adj cj hcj I S s
+  | zero d r => exact C05.zero_adj cj I d r
+  | multiply d r v => exact C05.multiply_adj cj hcj I d r v
+  | multField S F v => exact C05.multfield_adj cj hcj I S F v
+  | inner S F v => exact C05.innerprod_adj cj hcj I S F v
+  | realPart S R => intro t' hw ha; exact hw t' ha
+  | imagPart S R => intro t' hw ha; exact hw t' ha
+  | cembed S C s => intro t' hw ha; exact hw t' ha
+  | matrix d r M => exact C05.matrix_adj_of_equal_const_weights cj hcj I d r M
+  | pwInner V X G w v => exact C05.pointwise_inner_adj cj hcj I V X G w v
+  | pwInnerAdj X V G w v => exact C05.pointwise_inner_adjoint_adj cj hcj I X V G w v
+  | sampling S R idx b cv => exact C05.sampling_adj cj I S R idx b cv
+  | wsum R S idx b cv => exact C05.wsum_sampling_adj cj I R S idx b cv
+  | flatten S R cv => exact C05.flatten_adj cj I S R cv
+  | flattenInv R S cv => exact C05.flatten_inverse_adj cj I R S cv
+  | proj P Q idx => intro t' hw ha; exact hw t' ha
+  | projAdj Q P idx => intro t' hw ha; exact hw t' ha
+
+/-- MAIN THEOREM.  For every expression tree `t` (unbounded depth, all sizes, all weights)
+that is well formed (`WT`: what the ODL constructors check, plus the leaf conditions) and
+whose `.adjoint` the code returns (`adj t = some t'`): `t` maps its domain into its range,
+`t'` maps the range back into the domain, and `φ ⟨t x, y⟩_ran = φ ⟨x, t' y⟩_dom` for all
+`x, y` and every additive `φ` (conjugation-invariant `φ` if the tree contains an operator
+between a real and a complex space).  With `φ = id`: ⟨Ax, y⟩ = ⟨x, A*y⟩. -/
+theorem C05.adj_sound (cj : K →+* K) (hcj : ∀ a, cj (cj a) = a) (I : K) (t t' : Impl K)
+    (hw : t.WT cj I) (ha : t.adj cj I = some t') :
+    Pair cj t.needRe t.dom t.ran (t.run cj I) (t'.run cj I) :=
+  C05.adj_sound_tree cj hcj I (C05.leaf_sound cj hcj I) t t' hw ha
+
+/-- The plain statement for trees without real/complex-mixing leaves: ⟨Ax,y⟩ = ⟨x,A*y⟩. -/
+theorem C05.adj_identity (cj : K →+* K) (hcj : ∀ a, cj (cj a) = a) (I : K) (t t' : Impl K)
+    (hw : t.WT cj I) (ha : t.adj cj I = some t') (hre : ¬ t.needRe) (x y : El K)
+    (hx : mem cj t.dom x) (hy : mem cj t.ran y) :
+    dot cj t.ran (t.run cj I x) y = dot cj t.dom x (t'.run cj I y) :=
+  (C05.adj_sound cj hcj I t t' hw ha).adj (AddMonoidHom.id K) (fun h => absurd h hre) x y hx hy
+
+
+/-! ### adjoint maps range → domain -/
+
+/-- every leaf of the tree has an adjoint of the transposed type -/
+def OdlModel.Adjoint.Impl.leavesTyped (cj : K → K) (I : K) : Impl K → Prop
+  | .leaf l => ∀ t', l.adj cj I = some t' → t'.dom = l.ran ∧ t'.ran = l.dom
+  | .sum a b => a.leavesTyped cj I ∧ b.leavesTyped cj I
+  | .comp a b => a.leavesTyped cj I ∧ b.leavesTyped cj I
+  | .lscal a _ => a.leavesTyped cj I
+  | .rscal a _ => a.leavesTyped cj I
+  | .lvec a _ => a.leavesTyped cj I
+  | .rvec a _ => a.leavesTyped cj I
+  | .flvec f _ _ _ => f.leavesTyped cj I
+  | .pnil _ _ _ => True
+  | .pcons _ _ a rest => a.leavesTyped cj I ∧ rest.leavesTyped cj I
+
+/-- `adj_type`: the adjoint of every expression tree maps range → domain, provided the leaf
+adjoints do (they do for every modelled leaf except RealPart/ImagPart on a complex space,
+see `C05.adj_type_fails_realpart`). -/
+theorem C05.adj_type_tree (cj : K → K) (I : K) (t : Impl K) :
+    ∀ t', t.leavesTyped cj I → t.adj cj I = some t' → t'.dom = t.ran ∧ t'.ran = t.dom := by
+  induction t with
+  | leaf l => intro t' hl ha; exact hl t' ha
+  | sum a b iha ihb =>
+    intro t' hl ha
+    cases ea : a.adj cj I with
+    | none => simp [Impl.adj, ea] at ha
+    | some a' =>
+      cases eb : b.adj cj I with
+      | none => simp [Impl.adj, ea, eb] at ha
+      | some b' =>
+        simp [Impl.adj, ea, eb] at ha; subst ha
+        exact iha a' hl.1 ea
+  | comp a b iha ihb =>
+    intro t' hl ha
+    cases ea : a.adj cj I with
+    | none => simp [Impl.adj, ea] at ha
+    | some a' =>
+      cases eb : b.adj cj I with
+      | none => simp [Impl.adj, ea, eb] at ha
+      | some b' =>
+        simp [Impl.adj, ea, eb] at ha; subst ha
+        exact ⟨(iha a' hl.1 ea).1, (ihb b' hl.2 eb).2⟩
+  | lscal a s iha =>
+    intro t' hl ha
+    cases ea : a.adj cj I with
+    | none => simp [Impl.adj, ea] at ha
+    | some a' => simp [Impl.adj, ea] at ha; subst ha; exact iha a' hl ea
+  | rscal a s iha =>
+    intro t' hl ha
+    cases ea : a.adj cj I with
+    | none => simp [Impl.adj, ea] at ha
+    | some a' => simp [Impl.adj, ea] at ha; subst ha; exact iha a' hl ea
+  | lvec a v iha =>
+    intro t' hl ha
+    cases ea : a.adj cj I with
+    | none => simp [Impl.adj, ea] at ha
+    | some a' => simp [Impl.adj, ea] at ha; subst ha; exact iha a' hl ea
+  | rvec a v iha =>
+    intro t' hl ha
+    cases ea : a.adj cj I with
+    | none => simp [Impl.adj, ea] at ha
+    | some a' => simp [Impl.adj, ea] at ha; subst ha; exact iha a' hl ea
+  | flvec f V F v ihf =>
+    intro t' hl ha
+    cases ea : f.adj cj I with
+    | none => simp [Impl.adj, ea] at ha
+    | some f' =>
+      simp [Impl.adj, ea] at ha; subst ha
+      exact ⟨rfl, (ihf f' hl ea).2⟩
+  | pnil k d r => intro t' _ ha; simp [Impl.adj] at ha; subst ha; exact ⟨rfl, rfl⟩
+  | pcons r c a rest iha ihr =>
+    intro t' hl ha
+    cases ea : a.adj cj I with
+    | none => simp [Impl.adj, ea] at ha
+    | some a' =>
+      cases er : rest.adj cj I with
+      | none => simp [Impl.adj, ea, er] at ha
+      | some rest' =>
+        simp [Impl.adj, ea, er] at ha; subst ha
+        exact ihr rest' hl.2 er
+
+/-- Leaves whose coded adjoint has the transposed type (syntactically, all sizes). -/
+theorem C05.leaf_typed (cj : K → K) (I : K) (l : Leaf K)
+    (h : match l with
+      | .realPart S R => S.real = true ∧ R = S
+      | .imagPart S R => S.real = true ∧ R = S
+      | .cembed S C _ => S.real = false → C = S
+      | _ => True) :
+    (Impl.leaf l).leavesTyped cj I := by
+  intro t' ha
+  cases l with
+  | scaling S s =>
+    simp [Leaf.adj] at ha; subst ha
+    by_cases e : imK cj I s = 0 <;> simp [e, Impl.dom, Impl.ran, Leaf.dom, Leaf.ran]
+  | multiply d r v =>
+    simp [Leaf.adj] at ha; subst ha
+    by_cases e : d.real = true <;> simp [e, Impl.dom, Impl.ran, Leaf.dom, Leaf.ran]
+  | multField S F v =>
+    simp [Leaf.adj] at ha; obtain ⟨_, rfl⟩ := ha
+    simp [Impl.dom, Impl.ran, Leaf.dom, Leaf.ran]
+  | realPart S R =>
+    obtain ⟨hr, rfl⟩ := h
+    simp [Leaf.adj, hr] at ha; subst ha; simp [Impl.dom, Impl.ran, Leaf.dom, Leaf.ran]
+  | imagPart S R =>
+    obtain ⟨hr, rfl⟩ := h
+    simp [Leaf.adj, hr] at ha; subst ha; simp [Impl.dom, Impl.ran, Leaf.dom, Leaf.ran]
+  | cembed S C s =>
+    by_cases e : S.real = true
+    · simp only [Leaf.adj, e, if_true] at ha
+      split_ifs at ha <;>
+        (simp at ha; subst ha; simp [Impl.dom, Impl.ran, Leaf.dom, Leaf.ran])
+    · have hC := h (by simpa using e)
+      subst hC
+      simp [Leaf.adj, e] at ha; subst ha; simp [Impl.dom, Impl.ran, Leaf.dom, Leaf.ran]
+  | _ => simp [Leaf.adj] at ha <;> (subst ha; simp [Impl.dom, Impl.ran, Leaf.dom, Leaf.ran])
+
+end
+
+/-! ### sharp negative results (the recorded findings, on the model) and non-vacuity -/
+
+section
+open OdlModel.Adjoint
+
+/-- F7 on the model: a 2×3 real matrix on a domain with array weights (2,1,1) and an
+unweighted range — the coded adjoint (transpose, weights ignored) violates the identity:
+⟨A e₀, f₀⟩_ran = 1 but ⟨e₀, A* f₀⟩_dom = 2.  So the hypothesis "equal constant weights" of
+`matrix_adj_of_equal_const_weights` cannot be dropped. -/
+theorem C05.matrix_adj_fails :
+    ∃ (d r : Space ℚ) (M : Nat → Nat → ℚ) (t' : Impl ℚ) (x y : El ℚ),
+      d.m = 1 ∧ r.m = 1 ∧ d.n 0 = 3 ∧ r.n 0 = 2 ∧ (∀ i, r.W 0 i = 1) ∧ (∀ i, 0 < d.W 0 i) ∧
+      (Leaf.matrix d r M).adj (RingHom.id ℚ) 0 = some t' ∧
+      dot (RingHom.id ℚ) r ((Leaf.matrix d r M).run (RingHom.id ℚ) 0 x) y ≠
+        dot (RingHom.id ℚ) d x (t'.run (RingHom.id ℚ) 0 y) := by
+  refine ⟨⟨1, fun _ => 3, fun _ i => if i = 0 then 2 else 1, true⟩, ⟨1, fun _ => 2, fun _ _ => 1, true⟩,
+    fun i k => if i = 0 ∧ k = 0 then 1 else 0, _, fun _ i => if i = 0 then 1 else 0,
+    fun _ i => if i = 0 then 1 else 0, rfl, rfl, rfl, rfl, fun _ => rfl, ?_, rfl, ?_⟩
+  · intro i; by_cases h : i = 0 <;> simp [h]
+  · simp [dot, sumTo, Leaf.run, Impl.run]
+
+/-- F51 on the model: SamplingOperator on a space with constant weight 2 that has no
+`cell_volume` (so `cv = 1`): ⟨S e₀, f₀⟩ = 1 but ⟨e₀, S* f₀⟩ = 2. -/
+theorem C05.sampling_adj_fails_weighted :
+    ∃ (S R : Space ℚ) (t' : Impl ℚ) (x y : El ℚ),
+      (Leaf.sampling S R (fun _ => 0) false 1).adj (RingHom.id ℚ) 0 = some t' ∧
+      dot (RingHom.id ℚ) R ((Leaf.sampling S R (fun _ => 0) false 1).run (RingHom.id ℚ) 0 x) y ≠
+        dot (RingHom.id ℚ) S x (t'.run (RingHom.id ℚ) 0 y) := by
+  refine ⟨⟨1, fun _ => 1, fun _ _ => 2, true⟩, ⟨1, fun _ => 1, fun _ _ => 1, true⟩, _,
+    fun _ _ => 1, fun _ _ => 1, rfl, ?_⟩
+  simp [dot, sumTo, Leaf.run, Impl.run]
+
+/-- F54 on the model: `RealPart(C).adjoint` is `ComplexEmbedding(C)`, whose domain is the
+complex space `C`, not the real range of `RealPart`. -/
+theorem C05.adj_type_fails_realpart :
+    ∃ (S R : Space ℚ) (t' : Impl ℚ), S.real = false ∧ R = { S with real := true } ∧
+      (Leaf.realPart S R).adj (RingHom.id ℚ) 0 = some t' ∧ t'.dom ≠ (Leaf.realPart S R).ran := by
+  refine ⟨⟨1, fun _ => 1, fun _ _ => 1, false⟩, _, _, rfl, rfl, rfl, ?_⟩
+  simp [Impl.dom, Leaf.dom, Leaf.ran]
+
+/-- Non-vacuity of `adj_sound`: a concrete weighted tree
+`3·(2·Id) + MultiplyOperator(v)` composed with a 2×2 matrix on `rn(2, weighting=1/2)`
+is well formed and has an adjoint. -/
+example :
+    let S : Space ℚ := ⟨1, fun _ => 2, fun _ _ => 1 / 2, true⟩
+    let t : Impl ℚ := .comp (.sum (.lscal (.leaf (.scaling S 2)) 3)
+      (.leaf (.multiply S S fun _ i => (i : ℚ) + 1)))
+      (.leaf (.matrix S S fun i k => (i : ℚ) - 2 * k))
+    t.WT (RingHom.id ℚ) 0 ∧ (t.adj (RingHom.id ℚ) 0).isSome = true ∧ ¬ t.needRe := by
+  intro S t
+  refine ⟨?_, rfl, ?_⟩
+  · simp only [t, Impl.WT, Leaf.WT, Impl.dom, Impl.ran, Leaf.dom, Leaf.ran]
+    refine ⟨⟨⟨⟨by simp, by simp⟩, by simp⟩, ⟨trivial, by intro _ j i; simp⟩, trivial, trivial⟩,
+      ⟨rfl, rfl, ⟨1 / 2, fun _ => rfl, fun _ => rfl⟩, trivial, by simp⟩, trivial⟩
+  · simp [t, Impl.needRe, Leaf.needRe]
 
 end
